@@ -34,7 +34,7 @@ class Bad:
 
 def kinds_for(schema, fdef, natural=None):
     """applicable failure kinds for a field of this declared type -> list of (kind label, fault, value)"""
-    out = [("raise", "raise", None), ("raise_te", "raise_te", None), ("raise_te_ctor", "raise_te_ctor", None), ("raise_multi", "raise_multi", None),
+    out = [("raise", "raise", None), ("raise_te", "raise_te", None), ("raise_te_ctor", "raise_te_ctor", None), ("raise_multi", "raise_multi", None), ("raise_coercible", "raise_coercible", None),
            ("return_exc", "return_exc", None), ("null", "none", None)]
     t = fdef.type
     core = t[1] if t[0] == "nn" else t
@@ -124,8 +124,13 @@ def in_span(loc, span):
     return (l0, c0) <= (l, c) < (l1, c1)
 
 
-def judge(exp, resp, faults):
-    """C02 oracle; -> clause or None"""
+_SEQUENTIAL = [False]
+
+
+def judge(exp, resp, faults, sequential=False):
+    """C02 oracle; -> clause or None.  sequential=True (engines completing siblings / items one after the other): a position that lies
+    below another nulled position is not in the response, and the failure behind it may never have been reached (DC8: once a non-null
+    failure propagates, the remaining work of that selection set may be cancelled) -- it then needs no error of its own."""
     if not isinstance(resp, dict) or "data" not in resp:
         return "envelope"
     if not X.data_equal(exp.data, resp["data"]):
@@ -154,11 +159,16 @@ def judge(exp, resp, faults):
         if kind == "raise_te" and any(c[0] == p for c in exp.calls):  # only if the resolver was reached (arguments coerced)
             if e["message"] != "user message %s" % (list(p),) or e.get("extensions") != {"code": "E42", "where": list(p)}:
                 return "user-message-or-extensions-lost"
+        if kind == "raise_coercible" and any(c[0] == p for c in exp.calls):
+            if e["message"] != "business rule at %s" % (list(p),) or e.get("extensions") != {"code": "BIZ"}:
+                return "user-message-or-extensions-lost"
         if kind == "raise_te_ctor" and any(c[0] == p for c in exp.calls):
             if e["message"] != "ctor user message %s" % (list(p),) or e.get("extensions") != {"code": "CTOR", "where": list(p)}:
                 return "user-message-or-extensions-lost"
     for n in exp.nulled:
         if not any(p[:len(n)] == n for p in seen):
+            if sequential and any(len(m) < len(n) and tuple(n[:len(m)]) == tuple(m) for m in exp.nulled):
+                continue
             return "nulled-position-unexplained"
     if not exp.nulled and errs:
         return "error-but-nothing-nulled"
@@ -177,7 +187,7 @@ def run_fault_case(schema, engine, located, text, op_name, variables, root, faul
         resp, clause = repr(e), "execute-raised"
     else:
         exp = X.execute_request(schema, located, op_name, variables, scn)
-        clause = judge(exp, resp, faults)
+        clause = judge(exp, resp, faults, sequential=_SEQUENTIAL[0])
         if exp.failures:
             out["counts"]["with_failures"] += 1
         if () in exp.nulled:
@@ -312,6 +322,7 @@ def shards(tier, seed):
 def run_shard(item):
     out = _new_out()
     try:
+        _SEQUENTIAL[0] = False
         if item[0] == "seed":
             _, si, tier = item
             schema = seeds.K
@@ -338,7 +349,13 @@ def run_shard(item):
             _, w1, w2, tier = item
             for w3 in range(6 if tier == "quick" else 8):
                 schema = chain_schema(WRAPPERS[w1], WRAPPERS[w2], WRAPPERS[w3])
-                engine = explore.engine_for(("chain", w1, w2, w3), schema)
+                # every other chain engine completes list items and sibling fields one after the other (engine options and per field)
+                seq = (w1 + w2 + w3) % 2 == 1
+                ekw = {"typecfg": {"resolver_kwargs_all": {"list_concurrently": False, "parent_concurrently": False}},
+                       "coerce_list_concurrently": False, "coerce_parent_concurrently": False} if seq else {}
+                engine = explore.engine_for(("chain", w1, w2, w3), schema, **ekw)
+                _SEQUENTIAL[0] = seq
+                out["counts"]["sequential_chain_engines"] = out["counts"].get("sequential_chain_engines", 0) + (1 if seq else 0)
                 text, located = doc.roundtrip(doc.parse(CHAIN_DOC))
                 root = chain_root(schema)
                 enumerate_faults(schema, engine, located, text, None, None, root, out,
